@@ -77,18 +77,22 @@ Theorem C18_popped_bar_hands_over_its_old_place : forall pm am dm evs s b nrows 
 Proof. exact flush_pop_handover. Qed.
 Print Assumptions C18_popped_bar_hands_over_its_old_place.
 
-(* ---- KNOWN FINDING D10 (open, known_findings.json): the property fails when the rows do not fit the height ----
-   flush keeps the bottom-most [height] rows of a frame.  A finished bar that is given the pop priority moves to the top,
-   where rows are cut; in the cycle of its third terminal frame its rows are discarded, nothing is counted as popped and the
-   bar is not pushed back: it was never drawn at the top and is nowhere on the screen afterwards.  The witness is the
-   smallest such run: two bars on a frame one line high.  The same history against the code: corpus/C18/frames_d10_popped_bar_clipped.txt
-   (8 bars of 3 rows, height 20), reported by the check as KNOWN-FINDING. *)
-Theorem C18_popped_bar_lost_when_clipped_refuted :
-  exists evs s, run (init_cst true true false) evs = Some s /\
-    retired s = [1] /\ screen s = [IRow 0 0 2 false false] /\
-    (exists f, In f (outframes s) /\ In (IRow 1 9 9 true false) f).
-Proof.
-  exists
+(* ---- D10 (found late, repaired in /repo): with more rows than the frame height a bar that was being popped out had its rows cut
+   off at the top, nothing was counted as popped and the bar was dropped — never drawn in its final place.  /repo "fix: a bar popped
+   out of a frame taller than the terminal is still drawn on top": the rows of a bar that is being popped out are kept whatever the
+   height.  The former refutation witness (two bars on a frame one line high) is now the Example below with the right outcome. ---- *)
+Theorem C18_popped_bar_is_drawn_whatever_the_height : forall s b nrows rmf s',
+  step s (CT_FLUSHBAR b 2 nrows rmf false false) = Some s' -> cycle_err s = false -> pop_mode s = true ->
+  exists r fi wd ht rows n pc pushes,
+    lookup b (bars s) = Some r /\ br_frame r = Some fi /\
+    ph s = Rendering wd ht rows n pc pushes /\
+    ph s' = Rendering wd ht (rows ++ List.rev (bar_rows b r fi)) (n + Z.of_nat (List.length (bar_rows b r fi)))
+                      (pc + Z.of_nat (List.length (bar_rows b r fi))) pushes.
+Proof. exact flush_popout_keeps_all_rows. Qed.
+Print Assumptions C18_popped_bar_is_drawn_whatever_the_height.
+
+Example C18_popped_bar_on_a_frame_one_line_high :
+  exists s, run (init_cst true true false)
     [CT_OP; CT_ADD 0 0 0 2 None None false false true 0 false; HM_PUSH 0 true 0 false 0;
      CT_OP; CT_ADD 1 1 1 9 None None false false true 0 false; HM_PUSH 1 true 1 true 0;
      CL_OP 1 (IncrInt64 9); BAR_OP 1 9 9 0 true false false 0;
@@ -108,16 +112,15 @@ Proof.
      CT_FLUSHBAR 1 1 1 false false false; CT_FLUSHBAR 0 0 1 false false false; CT_FRAME 1 0;
      OUT [ICuu 1; IRow 1 9 9 true false];
      HM_PUSH 1 false 0 false 2; HM_PUSH 0 false 1 false 2;
-     (* frame 3: bar 1 is on top, its row does not fit, it leaves all the same *)
+     (* frame 3: bar 1 is on top and leaves; its row is kept although the frame is one line high *)
      CT_RENDERBEGIN; HM_SYNC 2 false 2; HM_ITERREQ true 2; CT_RENDERSIZE 80 1;
      BAR_RENDER 0 0 2 0 false false 0; BAR_OP 0 0 2 0 true false false 0;
      BAR_RENDER 1 9 9 0 false true 2;
      HM_POP 0 0; HM_POP 1 (-2147483648);
-     CT_FLUSHBAR 0 0 1 false false false; CT_FLUSHBAR 1 2 1 false false false; CT_FRAME 1 0;
-     OUT [ICuu 1; IRow 0 0 2 false false]].
-  eexists. vm_compute. repeat split. eexists. split; [right; right; left; reflexivity|left; reflexivity].
-Qed.
-Print Assumptions C18_popped_bar_lost_when_clipped_refuted.
+     CT_FLUSHBAR 0 0 1 false false false; CT_FLUSHBAR 1 2 1 false false false; CT_FRAME 2 1;
+     OUT [ICuu 1; IRow 1 9 9 true false; IRow 0 0 2 false false]] = Some s
+  /\ retired s = [1] /\ cwbuf s = [ICuu 1] /\ screen s = [IRow 1 9 9 true false; IRow 0 0 2 false false].
+Proof. eexists. vm_compute. repeat split. Qed.
 
 Example C18_nonvacuous :
   exists s, run (init_cst true true false)
